@@ -244,6 +244,18 @@ func (n *Nodis) Serve(addr string) error {
 			}
 		}()
 		c := GetCommand(cmd.Name)
+		switch cmd.Name {
+		case "EXEC":
+			// nobody else is served between the check of the watched keys and the last queued
+			// command, and a write that finished before has already marked its watchers
+			n.store.execMu.Lock()
+			defer n.store.execMu.Unlock()
+		case "BLPOP", "BRPOP":
+			// may wait for a long time: must not hold up transactions
+		default:
+			n.store.execMu.RLock()
+			defer n.store.execMu.RUnlock()
+		}
 		c(n, conn, cmd)
 	})
 }
